@@ -15,6 +15,8 @@ func init() {
 		LLSpec{File: "c03.c", Func: "harness_any_adler32", Params: map[string]int{"N": 6}, ParamsT: map[string]int{"N": 12}, Reach: []string{"any/done"}},
 		LLSpec{File: "c03.c", Func: "harness_any_crc32", Params: map[string]int{"N": 3}, ParamsT: map[string]int{"N": 6}, Reach: []string{"any/done"}},
 	)
+	// harness_any_lzw (std/lzw on <= 2 bytes) exists in c03.c but is not registered: 86 000 paths in 8 minutes and
+	// symbolic offsets with 20 530 candidate positions in the decoder's tables (unsupported) - outside the claim.
 	register(&PropSpec{ID: "C03", Level: "model_checking",
 		Outside: []string{
 			"std/ decoders beyond the adler32 and crc32 hashers (lzw, deflate, zlib, gzip, image decoders): objects of tens of kilobytes and table-driven loops make each path too long for this engine in the time available",
